@@ -764,55 +764,87 @@ def honest_shape(transport, cfg):  # noqa: F811 - memoised
     return _shape_cache[k]
 
 
+# ------------------------------------------------------------------ in-memory TCP peer for the IP transport
+HTTP_RULES = ["always-200", "400-on-error", "405-on-error", "470-on-error"]
+
+
+class IpWire:
+    """The accessory's end of the TCP connection.  The REAL HTTP layer of HomeKitConnection runs on top of it
+    (post_tlv -> post -> request -> protocol.send_bytes, the response parser, the 4xx -> HttpErrorResponse path):
+    plaintext pair-verify requests are answered by the reference accessory's reply wrapped in an HTTP response whose
+    STATUS follows `rule` (an accessory may signal a rejected exchange with 4xx around the error TLV, as the
+    project's own test accessory does); everything else written (encrypted frames) is recorded.  A closed
+    transport stays closed."""
+
+    def __init__(self, conn, hub, rule="always-200"):
+        self.conn, self.hub, self.rule = conn, hub, rule
+        self.frames, self.closed, self.http_log = [], False, []
+
+    def _status(self, reply: bytes) -> int:
+        if self.rule == "always-200":
+            return 200
+        has_err = any(t == T_ERROR for t, _ in (ref_decode(reply) or []))
+        return int(self.rule[:3]) if has_err else 200
+
+    def _on(self, data: bytes):
+        if self.closed:
+            return
+        if data.startswith(b"POST /pair-verify"):
+            _, _, body = data.partition(b"\r\n\r\n")
+            reply = self.hub["peer"].respond(body)
+            status = self._status(reply)
+            self.http_log.append(status)
+            resp = (b"HTTP/1.1 %d X\r\nContent-Type: application/pairing+tlv8\r\nContent-Length: %d\r\n\r\n"
+                    % (status, len(reply))) + reply
+            proto = self.conn.protocol
+            asyncio.get_running_loop().call_soon(proto.data_received, resp)
+        else:
+            self.frames.append(data)
+
+    def write(self, data):
+        self._on(bytes(data))
+
+    def writelines(self, lines):
+        self._on(b"".join(bytes(x) for x in lines))
+
+    def close(self):
+        self.closed = True
+
+    def write_eof(self):
+        pass
+
+    def is_closing(self):
+        return self.closed
+
+    def set_protocol(self, p):
+        pass
+
+    def get_extra_info(self, *a, **k):
+        return None
+
+
+def ip_base_connect(ipc, hub, rule_of):
+    async def fake_base_connect(this):
+        this.transport = IpWire(this, hub, rule_of())
+        this.protocol = ipc.InsecureHomeKitProtocol(this)
+        this.protocol.connection_made(this.transport)
+        this.connected_host = "127.0.0.1"
+        this.host_header = "Host: 127.0.0.1"
+    return fake_base_connect
+
+
 # ------------------------------------------------------------------ real transport glue
-async def glue_ip(s: Scn, peer):
-    """SecureHomeKitConnection._connect_once with the TCP layer replaced; keys checked functionally."""
+async def glue_ip(s: Scn, peer, rule="always-200"):
+    """SecureHomeKitConnection._connect_once over an in-memory TCP peer (real HTTP layer); keys checked functionally."""
     import aiohomekit.controller.ip.connection as ipc
-    frames = []
-
-    class FakeTransport:
-        def write(self, data):
-            frames.append(bytes(data))
-
-        def writelines(self, lines):
-            frames.append(b"".join(bytes(x) for x in lines))
-
-        def close(self):
-            pass
-
-        def write_eof(self):
-            pass
-
-        def is_closing(self):
-            return False
-
-        def set_protocol(self, p):
-            pass
-
-        def get_extra_info(self, *a, **k):
-            return None
-
+    hub = dict(peer=peer)
     conn = ipc.SecureHomeKitConnection(None, dict(peer.pd, AccessoryIP="127.0.0.1", AccessoryPort=1))
-
-    class Resp:
-        def __init__(self, body):
-            self.body = body
-
-    async def fake_post(target, body, content_type=None):
-        return Resp(peer.respond(bytes(body)))
-
-    async def fake_base_connect(self):
-        self.transport = FakeTransport()
-        self.protocol = ipc.InsecureHomeKitProtocol(self)
-        self.connected_host = "127.0.0.1"
-
-    conn.post = fake_post
     orig = ipc.HomeKitConnection._connect_once
-    ipc.HomeKitConnection._connect_once = fake_base_connect
+    ipc.HomeKitConnection._connect_once = ip_base_connect(ipc, hub, lambda: rule)
     try:
         with fixed_x25519(peer.U.xsk(CTRL_EPH)):
             try:
-                await conn._connect_once()
+                await asyncio.wait_for(conn._connect_once(), 5)
             except HarnessError:
                 raise
             except Exception as e:  # noqa: BLE001
@@ -820,7 +852,7 @@ async def glue_ip(s: Scn, peer):
     finally:
         ipc.HomeKitConnection._connect_once = orig
     want = R.session_keys(peer.acc.secret, "ip") if peer.acc.secret else None
-    ok = await _ip_functional(conn, frames, want) if want else False
+    ok = await _ip_functional(conn, conn.transport.frames, want) if (want and conn.transport) else False
     return "done", ok, None
 
 
@@ -1080,69 +1112,36 @@ async def coap_sequence(mode):
 
 
 async def ip_sequence(mode):
-    """One SecureHomeKitConnection object, _connect_once twice (as the reconnect loop does)."""
+    """One SecureHomeKitConnection object, _connect_once twice (as the reconnect loop does), over the in-memory
+    TCP peer: the real HTTP layer runs, error replies come with a 4xx status."""
     import aiohomekit.controller.ip.connection as ipc
-    hub = dict(peer=None, frames=None)
-
-    class FakeTransport:
-        def __init__(self):
-            self.frames = []
-
-        def write(self, data):
-            self.frames.append(bytes(data))
-
-        def writelines(self, lines):
-            self.frames.append(b"".join(bytes(x) for x in lines))
-
-        def close(self):
-            pass
-
-        def write_eof(self):
-            pass
-
-        def is_closing(self):
-            return False
-
-        def set_protocol(self, p):
-            pass
-
-        def get_extra_info(self, *a, **k):
-            return None
-
-    class Resp:
-        def __init__(self, body):
-            self.body = body
-
-    async def fake_post(target, body, content_type=None):
-        return Resp(hub["peer"].respond(bytes(body)))
-
-    async def fake_base_connect(self):
-        self.transport = FakeTransport()
-        self.protocol = ipc.InsecureHomeKitProtocol(self)
-        self.connected_host = "127.0.0.1"
-
+    hub = dict(peer=None)
+    rule = "470-on-error" if mode == "rejected-with-4xx-between" else "always-200"
     peer0 = Peer(Scn("session-sequence", "ip", 0, honest=True))
     conn = ipc.SecureHomeKitConnection(None, dict(peer0.pd, AccessoryIP="127.0.0.1", AccessoryPort=1))
-    conn.post = fake_post
     orig = ipc.HomeKitConnection._connect_once
-    ipc.HomeKitConnection._connect_once = fake_base_connect
+    ipc.HomeKitConnection._connect_once = ip_base_connect(ipc, hub, lambda: rule)
     sessions, problems = [], []
     try:
-        plan = [("honest", {})] + ([("wrong-ltsk", dict(ltsk=OTHER_LTSK))] if mode == "failed-verify-between" else []) + [("honest", {})]
+        mid = {"failed-verify-between": [("wrong-ltsk", dict(ltsk=OTHER_LTSK))],
+               "rejected-with-4xx-between": [("accessory-rejects-m3", dict(ctrl_ltsk=OTHER_LTSK))]}.get(mode, [])
+        plan = [("honest", {})] + mid + [("honest", {})]
         for k, (label, accd) in enumerate(plan):
             peer = Peer(Scn("session-sequence", "ip", 0, acc=accd, honest=not accd))
             hub["peer"] = peer
             exc = None
             try:
-                await conn._connect_once()
+                await asyncio.wait_for(conn._connect_once(), 5)
             except Exception as e:  # noqa: BLE001
                 exc = type(e).__name__
             t = _transcript(peer, "reconnect")
+            t["http_status_of_replies"] = list(conn.transport.http_log) if conn.transport else None
             t.update(label=label, verify_exception=exc)
             sessions.append(t)
             if accd:
                 if exc is None:
-                    problems.append(f"session {k}: verify against a wrong-LTSK accessory succeeded")
+                    problems.append(f"session {k}: pair-verify against an accessory that {label} succeeded "
+                                    f"(is_secure={conn.is_secure})")
                 continue
             if exc is not None or peer.acc.secret is None:
                 problems.append(f"session {k}: honest pair-verify on the live connection failed ({exc})")
@@ -1379,59 +1378,21 @@ class LiveIp(LiveBase):
 
     async def __aenter__(self):
         import aiohomekit.controller.ip.connection as ipc
-        hub = self.hub
-
-        class FakeTransport:
-            def __init__(self):
-                self.frames = []
-
-            def write(self, data):
-                self.frames.append(bytes(data))
-
-            def writelines(self, lines):
-                self.frames.append(b"".join(bytes(x) for x in lines))
-
-            def close(self):
-                pass
-
-            def write_eof(self):
-                pass
-
-            def is_closing(self):
-                return False
-
-            def set_protocol(self, p):
-                pass
-
-            def get_extra_info(self, *a, **k):
-                return None
-
-        class Resp:
-            def __init__(self, body):
-                self.body = body
-
-        async def fake_post(target, body, content_type=None):
-            return Resp(hub["peer"].respond(bytes(body)))
-
-        async def fake_base_connect(this):
-            this.transport = FakeTransport()
-            this.protocol = ipc.InsecureHomeKitProtocol(this)
-            this.connected_host = "127.0.0.1"
+        self.rule = "always-200"
         peer0 = Peer(Scn("history", "ip", 0, honest=True), self.U, 98)
         self.ipc, self.orig = ipc, ipc.HomeKitConnection._connect_once
-        ipc.HomeKitConnection._connect_once = fake_base_connect
+        ipc.HomeKitConnection._connect_once = ip_base_connect(ipc, self.hub, lambda: self.rule)
         self.conn = ipc.SecureHomeKitConnection(None, dict(peer0.pd, AccessoryIP="127.0.0.1", AccessoryPort=1))
-        self.conn.post = fake_post
         self.conn._start_connector = lambda: None      # the reconnect loop is C10's; here the harness decides
         return self
 
     async def __aexit__(self, *a):
         self.ipc.HomeKitConnection._connect_once = self.orig
 
-    async def verify(self, peer):
-        self.hub["peer"] = peer
+    async def verify(self, peer, rule="always-200"):
+        self.hub["peer"], self.rule = peer, rule
         try:
-            await self.conn._connect_once()
+            await asyncio.wait_for(self.conn._connect_once(), 5)
         except Exception as e:  # noqa: BLE001
             # what _reconnect does with a failed attempt (repaired behaviour: no transport is kept)
             self.conn._drop_transport()
@@ -1557,9 +1518,10 @@ class LiveBle(LiveBase):
 
 
 HIST_EVENTS = dict(
-    coap=["honest", "honest", "honest", "wrong-ltsk", "m4-error", "replay", "drop", "drop", "reset"],
-    ip=["honest", "honest", "honest", "wrong-ltsk", "m4-error", "replay", "drop", "reset"],
-    ble=["honest", "honest", "honest", "honest", "forgot", "wrong-ltsk", "m4-error", "replay", "resume-forged", "drop", "drop"])
+    coap=["honest", "honest", "honest", "wrong-ltsk", "m4-error", "rejected", "replay", "drop", "drop", "reset"],
+    ip=["honest", "honest", "honest", "wrong-ltsk", "m4-error", "rejected", "rejected", "replay", "drop", "reset"],
+    ble=["honest", "honest", "honest", "honest", "forgot", "wrong-ltsk", "m4-error", "rejected", "replay", "resume-forged",
+         "drop", "drop"])
 COAP_DROPS = ["network-error", "timeout", "not-found", "garbage-response"]
 
 
@@ -1567,7 +1529,7 @@ def gen_histories(tier, rnd):
     n = 25 if tier == "quick" else 300
     out = []
     for tr in TRANSPORTS:
-        fixed = [["honest", "drop", "honest", "replay"], ["honest", "wrong-ltsk", "honest"],
+        fixed = [["honest", "drop", "honest", "replay"], ["honest", "wrong-ltsk", "honest"], ["rejected", "honest", "rejected"],
                  ["honest", "honest", "drop", "m4-error", "honest"], ["wrong-ltsk", "drop", "honest", "reset", "honest"]]
         if tr == "ble":
             fixed += [["honest", "drop", "honest", "drop", "honest"], ["honest", "drop", "forgot", "drop", "resume-forged", "drop", "honest"]]
@@ -1627,6 +1589,8 @@ async def run_history(tr, kinds, rnd):
                 accd, m2ops, m4ops, live_s = dict(eph=200 + i), [], [], None
                 if kind == "wrong-ltsk":
                     accd["ltsk"] = OTHER_LTSK
+                if kind == "rejected":                      # an authentic accessory that does not know this controller
+                    accd["ctrl_ltsk"] = OTHER_LTSK
                 if kind == "m4-error":
                     m4ops = [top(l_add(-1, T_ERROR, b"\x02"), "err2")]
                 if kind == "replay":
@@ -1647,7 +1611,12 @@ async def run_history(tr, kinds, rnd):
                         return [(T_STATE, lit(b"\x02")), (T_METHOD, lit(b"\x06")), (T_SID, ns), (T_ENC, tag)]
                     m2ops = [top(forged, "forged-resume")]
                 peer = Peer(Scn("history", tr, 0, acc=accd, m2=m2ops, m4=m4ops), U, 100 + i, live_session=live_s)
-                exc = await lv.verify(peer)
+                if tr == "ip":
+                    rule = rnd.choice(HTTP_RULES)
+                    exc = await lv.verify(peer, rule)
+                    entry.update(http_rule=rule, http_status_of_replies=list(lv.conn.transport.http_log) if lv.conn.transport else None)
+                else:
+                    exc = await lv.verify(peer)
                 entry.update(exception=exc, **_transcript(peer))
                 ok = exc is None
                 if ok and peer.acc.secret is not None:
@@ -1705,7 +1674,7 @@ def history_pass(tier, rnd):
 SEQUENCE_MODES = dict(
     coap=["network-error", "timeout", "not-found", "garbage-response", "reconnect-soon", "verify-while-connected",
           "failed-verify-between"],
-    ip=["reconnect", "failed-verify-between"],
+    ip=["reconnect", "failed-verify-between", "rejected-with-4xx-between"],
     ble=["resume", "accessory-forgot", "failed-verify-between"])
 
 
@@ -1748,7 +1717,10 @@ def glue_pass(scns, recs):
             elif s.resume:
                 out.append(None)              # IP / CoAP glue never offers a resume
             elif s.transport == "ip":
-                out.append(await glue_ip(s, Peer(s)))
+                res = []
+                for rule in HTTP_RULES:      # the HTTP status of error replies is a scenario dimension
+                    res.append(await glue_ip(s, Peer(s), rule) + (rule,))
+                out.append(res)
             else:
                 out.append(await glue_coap(s, Peer(s)))
     asyncio.run(main())
@@ -2164,30 +2136,30 @@ def run(ctx):
     for (s, rec), res in zip(sel, g):
         if res is None:
             continue
-        n_glue += 1
-        outcome, keys_ok, exc = res
-        impl_done = " result=done" in rec["impl"]
-        cov.case(f"glue|{s.ident()}", True, transport="glue-" + s.transport, glue_outcome=outcome)
-        if (outcome == "done") != impl_done:
-            found = outcome == "done" and not rec["just"]
-            viol.append(violation(("accepted-unauthentic:glue:" + str(rec["why_not"]) if found else "glue-mismatch:" + s.family) + ":" + s.transport,
-                                  f"transport glue outcome {outcome} ({exc}) differs from the generator-level outcome "
-                                  f"'{rec['impl']}' on {s.ident()}", found, **replay_payload(s, rec, None, dict(glue=outcome))))
-        elif outcome == "done" and not keys_ok and rec["acc_secret"] is not None:
-            viol.append(violation("glue-keys-differ:" + s.transport,
-                                  f"the keys installed by the {s.transport} transport glue do not interoperate with the "
-                                  f"accessory's keys (Control-Write / Control-Read / Event labels) on {s.ident()}", True,
-                                  **replay_payload(s, rec, None, dict(glue="keys installed by the real transport code fail the "
-                                                                           "functional check against accessory_keys"))))
-    # ---- extraction cross-check: a sample of the same requests evaluated by the Coq kernel's VM
-    if not ctx.get("replay"):
-        n_xc, xc_bad = vm_crosscheck(ctx, xc_sample(list(zip(lines, model_answers))))
-        cov.extra["vm_compute_crosscheck"] = {"requests": n_xc, "disagreements": len(xc_bad)}
-        if xc_bad:
-            viol.append(violation("extraction-vs-vm_compute",
-                                  f"the extracted driver and vm_compute disagree on {len(xc_bad)} of {n_xc} sampled requests "
-                                  f"(first: driver '{xc_bad[0]['driver']}', vm_compute {xc_bad[0]['vm_compute']})", False,
-                                  disagreements=xc_bad[:5]))
+        for one in (res if isinstance(res, list) else [res + (None,)]):
+            n_glue += 1
+            outcome, keys_ok, exc, rule = one
+            impl_done = " result=done" in rec["impl"]
+            cov.case(f"glue|{s.ident()}|{rule}", True, transport="glue-" + s.transport, glue_outcome=outcome,
+                     **({"http_rule": rule} if rule else {}))
+            extra = dict(glue=outcome, http_status_rule=rule,
+                         note=("IP: the reply bytes m2/m4 are delivered as HTTP responses; with rule N-on-error a reply that "
+                               "carries an Error item has status N (4xx), all others 200") if rule else None)
+            if (outcome == "done") != impl_done:
+                found = outcome == "done" and not rec["just"]
+                viol.append(violation(("accepted-unauthentic:glue:" + str(rec["why_not"]) if found else "glue-mismatch:" + s.family)
+                                      + ":" + s.transport + (":http-" + rule if rule and rule != "always-200" else ""),
+                                      f"transport glue outcome {outcome} ({exc}) differs from the generator-level outcome "
+                                      f"'{rec['impl']}' on {s.ident()}" + (f" [HTTP status rule {rule}]" if rule else "")
+                                      + ("; the connection reports a secure session although the delivered replies fail the "
+                                         f"C01 acceptance condition ({rec['why_not']})" if found else ""),
+                                      found, **replay_payload(s, rec, None, extra)))
+            elif outcome == "done" and not keys_ok and rec["acc_secret"] is not None:
+                viol.append(violation("glue-keys-differ:" + s.transport,
+                                      f"the keys installed by the {s.transport} transport glue do not interoperate with the "
+                                      f"accessory's keys (Control-Write / Control-Read / Event labels) on {s.ident()}", True,
+                                      **replay_payload(s, rec, None, dict(extra, glue="keys installed by the real transport code "
+                                                                          "fail the functional check against accessory_keys"))))
     cov.extra["exhaustive"] = True
     cov.extra["exhaustive_part"] = ("every single-bit flip of every byte of the honest M2 (IP; BLE bits 0 and 7; thorough: all "
                                "transports, all bits) and of M4, two substitutions per M2 byte, every signature transcript "
